@@ -8,7 +8,11 @@ Tie (checked on every run, besides the translator `translator/gen_smat.py`):
   bins    per matched point: (distance bin, dot bin) of NBlaster.score_fn.axes                == Lean          (exact ints)
   nblast  navis.nblast / nblast_allbyall, every mode, normalised/raw, alpha, limit_dist, precision, tables
           == Lean `nblast` / `nblastAllByAll`, compared in Rat inside the driver (2^-40 relative to the summed terms)
-  ext     smat=None / 'v1' / callable: the model supplies the matches, numpy evaluates the callable (a test)
+  ext     smat=None / 'v1' (sigma_scoring = default / 0.5 / 1 / 2.5 / 4 / 10 / 25 through `smat_kwargs`, unknown keys ignored) /
+          callable, through nblast, nblast(x), nblast_allbyall and nblast_smart(t below every score): the model supplies the
+          matches, numpy evaluates the requested score function (a test); nblast_allbyall(x) == nblast(x, x) for every form
+  jobs    (cases of the nblast stream with opt.jobs) forced rows x cols job partitions (n_cores > 1, in-process pool) with
+          queries / targets of different sizes, reverse-score modes, mostly normalised: == Lean definition, not merely == serial
   hist    (harness/c06x.py) histories on the SAME Dotprops objects: NBLAST calls interleaved with in-place / out-of-place
           arithmetic, `points = ...`, downsample, subset_neuron, recalculate_tangents, copy, pickle, exact unit conversion,
           reads that cache the kd-tree; every call == Lean definition on the objects' CURRENT points / tangents / alpha; the
@@ -635,19 +639,22 @@ def run_nblast(fn, qs, ts, cfg, smat, dtype='float64', opt=None):
         smat = Lookup2d.from_dataframe(smat)
     elif opt.get('smat_obj') and smat == 'auto':
         smat = smat_fcwb(bool(cfg['use_alpha']))
+    jobs = opt.get('jobs')
     kw = dict(normalized=cfg['normalized'], use_alpha=cfg['use_alpha'], smat=smat, limit_dist=cfg['limit_dist'],
-              precision=cfg.get('precision', 64), n_cores=1, progress=False)
+              precision=cfg.get('precision', 64), n_cores=4 if jobs else 1, progress=False)
     if cfg.get('approx_nn'):
         kw['approx_nn'] = True
-    if fn == 'allbyall':
-        return relabel(NF.nblast_allbyall(ql, **kw), back, False)
-    if fn == 'nblastself':   # nblast(x): target=None means "against the queries themselves"
-        return relabel(NF.nblast(ql, None, scores=cfg['mode'], **kw), back, cfg['mode'] == 'both')
-    td = [mk_dp(c, dtype, idk, us[(k + 1) % len(us)]) for k, c in enumerate(ts)]
-    for c, d in zip(ts, td):
-        back[d.id] = c['id']
-    tl = td[0] if (opt.get('single_t') and len(td) == 1) else navis.NeuronList(td)
-    return relabel(NF.nblast(ql, tl, scores=cfg['mode'], **kw), back, cfg['mode'] == 'both')
+    import contextlib
+    with (X.ForcedJobs(jobs[0], jobs[1]) if jobs else contextlib.nullcontext()):
+        if fn == 'allbyall':
+            return relabel(NF.nblast_allbyall(ql, **kw), back, False)
+        if fn == 'nblastself':   # nblast(x): target=None means "against the queries themselves"
+            return relabel(NF.nblast(ql, None, scores=cfg['mode'], **kw), back, cfg['mode'] == 'both')
+        td = [mk_dp(c, dtype, idk, us[(k + 1) % len(us)]) for k, c in enumerate(ts)]
+        for c, d in zip(ts, td):
+            back[d.id] = c['id']
+        tl = td[0] if (opt.get('single_t') and len(td) == 1) else navis.NeuronList(td)
+        return relabel(NF.nblast(ql, tl, scores=cfg['mode'], **kw), back, cfg['mode'] == 'both')
 
 
 def smat_arg(tab):
@@ -684,6 +691,7 @@ def case_nblast(ctx, case):
     fn, qs, ts, cfg, tab = case['fn'], case['q'], case['t'], case['cfg'], case['table']
     dtype = case.get('dtype', 'float64')
     opt = case.get('opt') or {}
+    opt1 = {k: v for k, v in opt.items() if k != 'jobs'}     # the derived reference calls run as one job
     fn_call = fn
     if fn == 'nblastself':
         fn, ts = 'nblast', qs
@@ -700,7 +708,9 @@ def case_nblast(ctx, case):
     tset = qs if fn == 'allbyall' else ts
     ctx.count('nblast', f"{fn}/{mode}/{'norm' if norm else 'raw'}/{'alpha' if ua else 'noalpha'}/{tab['kind']}/"
                         f"{'limit' if bound else 'nolimit'}/p{prec}/{dtype}")
-    ctx.count('nblast_opt', '/'.join(f'{k}={opt[k]}' for k in sorted(opt) if k != 'units' and opt[k]) or 'plain')
+    ctx.count('nblast_opt', '/'.join(f'{k}={opt[k]}' for k in sorted(opt) if k not in ('units', 'jobs') and opt[k]) or 'plain')
+    if opt.get('jobs'):
+        ctx.count('nblast_jobs', f"{fn_call}/{opt['jobs'][0]}x{opt['jobs'][1]}/{mode}/{'norm' if norm else 'raw'}")
     if cfg.get('approx_nn'):
         ctx.count('nblast_approx_nn')
     try:
@@ -731,7 +741,7 @@ def case_nblast(ctx, case):
     # ---- derived clauses on the real code ------------------------------------------------------------------
     cfgf = dict(cfg, mode='forward')
     if fn == 'allbyall':
-        ref = run_nblast('nblast', qs, qs, cfgf, smat, dtype, opt)
+        ref = run_nblast('nblast', qs, qs, cfgf, smat, dtype, opt1)
         ok = ref.shape == df.shape and list(ref.index) == list(df.index) and list(ref.columns) == list(df.columns)
         if ok:
             dv = np.abs(ref.values.astype(float) - v)
@@ -749,8 +759,8 @@ def case_nblast(ctx, case):
         F = v
         R = v.T
     else:
-        F = run_nblast('nblast', qs, ts, cfgf, smat, dtype, opt).values.astype(float) if mode != 'forward' else v
-        R = run_nblast('nblast', ts, qs, cfgf, smat, dtype, dict(opt, single_q=opt.get('single_t'), single_t=opt.get('single_q'))).values.astype(float).T
+        F = run_nblast('nblast', qs, ts, cfgf, smat, dtype, opt1).values.astype(float) if mode != 'forward' else v
+        R = run_nblast('nblast', ts, qs, cfgf, smat, dtype, dict(opt1, single_q=opt.get('single_t'), single_t=opt.get('single_q'))).values.astype(float).T
         if mode != 'forward':
             if mode == 'mean':
                 exp = (F + R) / 2
@@ -768,7 +778,7 @@ def case_nblast(ctx, case):
     if norm and fn == 'nblast' and case.get('check_self', True):
         unitq = [c for c in qs if is_unit(c)]
         if unitq:
-            sdf = run_nblast('nblast', unitq, unitq, cfgf, smat, dtype, dict(opt, single_q=False, single_t=False)).values.astype(float)
+            sdf = run_nblast('nblast', unitq, unitq, cfgf, smat, dtype, dict(opt1, single_q=False, single_t=False)).values.astype(float)
             dg = np.diag(sdf)
             ctx.oracle(bool((np.abs(dg - 1) <= 1e-14).all()), f'normalised self score (nblast(q, q)) is not 1: {dg}', case)
     # normalised <= 1 for the default tables
@@ -805,6 +815,28 @@ def case_nblast(ctx, case):
                 exp[i, j] = tb(d, dots).sum()
         ctx.oracle(bool((np.abs(exp - v) <= 1e-12 * np.maximum(1, np.abs(exp))).all()),
                    f'limit_dist={bound}: points without a neighbour within the limit are not scored as (limit, 0)', case)
+
+
+def gen_jobs(ctx, r):
+    """several jobs: targets (and queries) of different sizes, reverse-score modes, mostly normalised"""
+    fn = r.choice(['nblast', 'nblast', 'nblast', 'nblastself', 'allbyall'])
+    ua = r.random() < 0.3
+    for _ in range(20):
+        qs, ts = gen_neurons(r, r.randint(2, 4), r.randint(2, 4) if fn == 'nblast' else 0, r.random() < 0.5,
+                             r.choice(['any', 'sq', 'one']) if ua else r.choice(['any', 'one']), ctx.budget(9, 16), r.choice(['unique', 'shared']))
+        tl = ts if fn == 'nblast' else qs
+        if len({len(c['pts']) for c in tl}) > 1:
+            break
+    rows = r.randint(1, len(qs))
+    cols = r.randint(1, len(tl))
+    if rows * cols == 1:
+        cols = len(tl)
+    tab = dict(kind='auto') if r.random() < 0.5 else gen_table(r)
+    x = r.random()
+    limit = None if x < 0.6 else r.choice([2, 5, 13, 42])
+    cfg = dict(mode=r.choice(['mean', 'min', 'max', 'both', 'forward']) if fn != 'allbyall' else 'forward',
+               normalized=r.random() < 0.85, use_alpha=ua, limit_dist=limit, precision=64)
+    return dict(fn=fn, q=qs, t=ts, cfg=cfg, table=tab, dtype='float64', opt=dict(jobs=[rows, cols]), check_self=False)
 
 
 def gen_nblast(ctx, r, force=None):
@@ -893,26 +925,59 @@ def _fn_lin(d, dp):
     return 3.0 * dp - 0.25 * d + 0.5
 
 
-EXT = {
-    'none': (None, lambda d, dp: d * dp, {}),
-    'v1': ('v1', lambda d, dp: np.sqrt(np.abs(dp) * np.exp(-(d ** 2) / (2 * 10 ** 2))), {}),
-    'v1s': ('v1', lambda d, dp: np.sqrt(np.abs(dp) * np.exp(-(d ** 2) / (2 * 4 ** 2))), {'sigma_scoring': 4}),
-    'lin': (_fn_lin, _fn_lin, {}),
-}
+def _v1(sigma):
+    """Kohl et al. (2013): sqrt(|dot| * exp(-d^2 / (2 sigma^2)))"""
+    return lambda d, dp: np.sqrt(np.abs(dp) * np.exp(-(np.asarray(d, dtype=float) ** 2) / (2 * sigma ** 2)))
+
+
+def ext_resolve(which, sigma, extra):
+    """(smat argument, reference score function, smat_kwargs) — `sigma` None = the constructor's default (10)"""
+    if which == 'none':
+        return None, (lambda d, dp: d * dp), ({'sigma_scoring': sigma} if sigma else {})
+    if which == 'lin':
+        return _fn_lin, _fn_lin, ({'sigma_scoring': sigma} if sigma else {})
+    kw = {} if sigma is None else {'sigma_scoring': sigma}
+    if extra:
+        kw['not_a_scoring_option'] = 3      # unknown keys are ignored by the constructor
+    return 'v1', _v1(10 if sigma is None else sigma), kw
+
+
+# kept for replay files written before `sigma` became a case parameter
+EXT_OLD = {'none': ('none', None), 'v1': ('v1', None), 'v1s': ('v1', 4), 'lin': ('lin', None)}
 
 
 def case_ext(ctx, case):
     qs, ts, cfg, which = case['q'], case['t'], case['cfg'], case['which']
-    smat, f, kw = EXT[which]
+    sigma, extra, fn = case.get('sigma'), case.get('extra', False), case.get('fn', 'nblast')
+    if 'sigma' not in case:
+        which, sigma = EXT_OLD[which]
+    smat, f, kw = ext_resolve(which, sigma, extra)
     ua, norm, bound = cfg['use_alpha'], cfg['normalized'], cfg['limit_dist']
+    mode = cfg['mode'] if fn in ('nblast', 'nblastself', 'smart') else 'forward'
+    if fn == 'smart' and mode == 'both':
+        mode = 'mean'
     ql = navis.NeuronList([mk_dp(c) for c in qs]); tl = navis.NeuronList([mk_dp(c) for c in ts])
+    args = dict(normalized=norm, use_alpha=ua, smat=smat, limit_dist=bound, n_cores=1, progress=False, smat_kwargs=kw)
     try:
-        df = NF.nblast(ql, tl, scores=cfg['mode'], normalized=norm, use_alpha=ua, smat=smat, limit_dist=bound,
-                       n_cores=1, progress=False, smat_kwargs=kw)
+        if fn == 'nblast':
+            df = NF.nblast(ql, tl, scores=mode, **args)
+        elif fn == 'nblastself':
+            df = NF.nblast(ql, None, scores=mode, **args)
+        elif fn == 'allbyall':
+            df = NF.nblast_allbyall(ql, **args)
+        else:   # every pair passes the threshold: the full NBLAST of every pair
+            df = NF.nblast_smart(ql, tl, t=-10 ** 6, criterion='score', scores=mode, **args)
     except Exception as e:   # noqa
-        ctx.oracle(False, f'nblast(smat={which}) raised {type(e).__name__}: {e}', case)
+        ctx.oracle(False, f'{fn}(smat={which}, smat_kwargs={kw}) raised {type(e).__name__}: {e}', case)
         return
-    ctx.count('ext', f"{which}/{cfg['mode']}/{'norm' if norm else 'raw'}/{'alpha' if ua else 'noalpha'}")
+    ctx.count('ext', f"{fn}/{which}/sigma={sigma}/{mode}/{'norm' if norm else 'raw'}/{'alpha' if ua else 'noalpha'}")
+    tset = ts if fn in ('nblast', 'smart') else qs
+
+    def selfhit(a):
+        if ua:
+            aa = np.array(a['alpha'], dtype=float)
+            return float(np.sum(f(np.zeros(len(aa)), np.sqrt(aa * aa))))
+        return len(a['pts']) * float(f(0, 1.0))
 
     def fwd(a, b):
         ms = [m.split(':') for m in ctx.ask(f"c06.match {bound_tok(bound)}|{cloud_tok(a)}|{cloud_tok(b)}").split(';')]
@@ -923,49 +988,62 @@ def case_ext(ctx, case):
             dots = dots * np.sqrt(al)
         s = float(np.sum(f(d, dots)))
         if norm:
-            if ua:
-                aa = np.array(a['alpha'], dtype=float)
-                sh = float(np.sum(f(np.zeros(len(aa)), np.sqrt(aa * aa))))
-            else:
-                sh = len(a['pts']) * float(f(0, 1.0))
+            sh = selfhit(a)
             s = s / sh if sh != 0 else float('nan')
         return s
 
-    F = np.array([[fwd(a, b) for b in ts] for a in qs])
-    mode = cfg['mode']
     if norm:
         # guard of the definition: a zero self hit is a division by zero (inf / nan, dropped or not by min / max)
-        def sh0(a):
-            aa = np.array(a['alpha'], dtype=float)
-            return (float(np.sum(f(np.zeros(len(aa)), np.sqrt(aa * aa)))) if ua else len(a['pts']) * float(f(0, 1.0))) == 0
-        if any(sh0(a) for a in qs) or (mode != 'forward' and any(sh0(b) for b in ts)):
+        if any(selfhit(a) == 0 for a in qs) or ((mode != 'forward' or fn != 'nblast') and any(selfhit(b) == 0 for b in tset)):
             ctx.count('ext_undef')
             return
+    if norm and fn == 'smart' and any(selfhit(X.ds10(c)) == 0 for c in qs + ts):
+        ctx.count('ext_undef')
+        return
+    F = np.array([[fwd(a, b) for b in tset] for a in qs])
+    if fn == 'allbyall':     # the diagonal takes the short-cut: literal 1 / the raw self hit
+        for i, a in enumerate(qs):
+            F[i, i] = 1.0 if norm else selfhit(a)
     if mode == 'forward':
         exp = F
     else:
-        R = np.array([[fwd(b, a) for b in ts] for a in qs])
+        R = np.array([[fwd(b, a) for b in tset] for a in qs])
         exp = {'mean': (F + R) / 2, 'min': np.minimum(F, R), 'max': np.maximum(F, R)}.get(mode)
         if exp is None:
-            exp = np.empty((2 * len(qs), len(ts))); exp[0::2] = F; exp[1::2] = R
+            exp = np.empty((2 * len(qs), len(tset))); exp[0::2] = F; exp[1::2] = R
     v = df.values.astype(float)
     fin = np.isfinite(exp)
     good = exp.shape == v.shape and bool((np.isfinite(v) == fin).all()) and \
         bool((np.abs(exp - v)[fin] <= 1e-9 * np.maximum(1, np.abs(exp[fin]))).all())
-    ctx.oracle(good, f'nblast(smat={which}, scores={mode}) differs from the definition evaluated on the model matches', case)
-    ctx.oracle(list(df.columns) == [c['id'] for c in ts], 'column labels do not follow the targets', case)
+    ctx.oracle(good, f'{fn}(smat={which}, smat_kwargs={kw}, scores={mode}) differs from the definition evaluated on the model matches '
+                     f'with the requested score function' + (f' (sigma_scoring={sigma})' if which == 'v1' else ''), case)
+    ctx.oracle(list(df.columns) == [c['id'] for c in tset], 'column labels do not follow the targets', case)
+    if fn == 'allbyall':
+        # all-by-all equals query-against-itself, for every form of score function
+        ref = NF.nblast(ql, navis.NeuronList([mk_dp(c) for c in qs]), scores='forward', **args).values.astype(float)
+        off = ~np.eye(len(qs), dtype=bool)
+        same = ref.shape == v.shape and bool((ref[off] == v[off]).all())
+        dg = np.abs(np.diag(ref) - np.diag(v))
+        if all(is_unit(c) for c in qs):
+            same = same and bool((dg[np.isfinite(dg)] <= 1e-12 * np.maximum(1, np.abs(np.diag(v)))[np.isfinite(dg)]).all())
+        ctx.oracle(same, f'nblast_allbyall(x, smat={which}, smat_kwargs={kw}) differs from nblast(x, x, ...) with the same arguments', case)
 
 
-def gen_ext(ctx, r):
-    qs, ts = gen_neurons(r, r.randint(1, 2), r.randint(1, 2), r.random() < 0.5, r.choice(['any', 'sq', 'one']), ctx.budget(8, 16))
+def gen_ext(ctx, r, force=None):
+    force = force or {}
+    fn = force.get('fn') or r.choice(['nblast', 'nblast', 'allbyall', 'allbyall', 'nblastself', 'smart'])
+    big = fn == 'smart' and r.random() < 0.7
+    qs, ts = gen_neurons(r, r.randint(1, 3), r.randint(1, 2), r.random() < 0.5, r.choice(['any', 'sq', 'one']),
+                         ctx.budget(14, 20) if big else ctx.budget(8, 16))
     cfg = dict(mode=r.choice(['forward', 'mean', 'min', 'max', 'both']), normalized=r.random() < 0.6,
                use_alpha=r.random() < 0.4, limit_dist=r.choice([None, None, 2, 5, 1.5]))
-    which = r.choice(list(EXT))
-    if which == 'none' or cfg['use_alpha']:
-        # self-hit of `operator.mul` is 0 (distance 0); with alpha 0 the v1 self-hit may vanish too
-        if which == 'none':
-            cfg['normalized'] = False
-    return dict(q=qs, t=ts, cfg=cfg, which=which)
+    which = force.get('which') or r.choice(['none', 'v1', 'v1', 'v1', 'lin'])
+    sigma = r.choice([None, 1, 2.5, 4, 10, 25, 0.5]) if which == 'v1' else r.choice([None, None, 4])
+    if 'sigma' in force:
+        sigma = force['sigma']
+    if which == 'none':
+        cfg['normalized'] = False      # the self hit of `operator.mul` is 0 (distance 0)
+    return dict(q=qs, t=ts, cfg=cfg, which=which, sigma=sigma, extra=r.random() < 0.2, fn=fn)
 
 
 # ---------------------------------------------------------------------------------------------
@@ -1082,6 +1160,9 @@ def gen_cases(ctx):
         c['cfg']['normalized'] = norm
         c['cfg']['precision'] = 64
         yield 'nblast', c
+    # the same definition whatever the split into jobs (per-job blasters get each neuron with its own self hit)
+    for _ in range(ctx.budget(40, 500)):
+        yield 'nblast', gen_jobs(ctx, r)
     for _ in range(ctx.budget(45, 700)):
         yield 'hist', X.gen_hist(ctx, r)
     for _ in range(ctx.budget(40, 600)):
@@ -1111,6 +1192,10 @@ def gen_cases(ctx):
     for _ in range(ctx.budget(60, 500)):
         qs, _ = gen_neurons(r, 1, 0, r.random() < 0.5, r.choice(['any', 'sq', 'one']), 12)
         yield 'selfhit', dict(table=dict(kind='auto') if r.random() < 0.4 else gen_table(r), use_alpha=r.random() < 0.5, cloud=qs[0])
+    # smat='v1' with a non-default sigma through every front end (the requested score function must reach every blaster)
+    for fn in ('nblast', 'allbyall', 'nblastself', 'smart'):
+        for sigma in (r.choice([1, 2.5, 4]), r.choice([25, 0.5, None])):
+            yield 'ext', gen_ext(ctx, r, dict(fn=fn, which='v1', sigma=sigma))
     for _ in range(ctx.budget(120, 2000)):
         yield 'ext', gen_ext(ctx, r)
     for _ in range(ctx.budget(15, 120)):
